@@ -51,6 +51,11 @@ def ref_shapes():
     S.append(("cross-file", lambda P, Q, T: ({**obj({}, t(T, 0)), "properties": {"r": {"$ref": "other.json#/definitions/p"}, "l": obj(Q, t(T, 2))}}, {"other.json": {"definitions": {"p": obj(P, t(T, 1))}}})))
     S.append(("cross-file-back", lambda P, Q, T: ({**obj({}, t(T, 0)), "properties": {"r": {"$ref": "other.json#/definitions/p"}}, "definitions": {"home": obj(Q, t(T, 2))}}, {"other.json": {"definitions": {"p": {**obj({}, t(T, 1)), "properties": {"h": {"$ref": "root.json#/definitions/home"}}}}}})))
     S.append(("composition-objects", lambda P, Q, T: ({"type": "object", **({"title": T[0]} if T else {}), "anyOf": [obj(P, t(T, 1))], "oneOf": [obj(Q, t(T, 2)), {"type": "null"}], "allOf": [obj({}, t(T, 1))]}, None)))
+    # same title on DIFFERENT objects in tuple positions / additionalItems and on a sibling property
+    S.append(("tuple-items-same-title", lambda P, Q, T: ({**obj({}, t(T, 0)), "properties": {
+        "pair": {"type": "array", "items": [obj(P, "Point"), obj(Q, "Point"), {"type": "integer"}], "additionalItems": obj({"properties": {"zz": {"type": "null"}}}, "Point")},
+        "lone": obj({"properties": {"only": {"type": "string"}}}, "Point"),
+    }}, None)))
     # two differently titled objects of identical shape, each reachable only through an otherwise equal wrapper
     S.append(("equal-wrappers", lambda P, Q, T: ({**obj({}, t(T, 0)), "properties": {
         "xs": {"type": "array", "items": obj(P, t(T, 1) or "Cat")}, "ys": {"type": "array", "items": obj(P, t(T, 2) or "Dog")},
